@@ -35,3 +35,28 @@ prop(
         "newReadBuff/newEventBuffs return buffers owned by this request (sync.Pool ownership)",
     ],
 )
+
+prop(
+    "C12",
+    level="proof",
+    design_ref="DESIGN.md section 3, C12",
+    groups=[(["./decoder"], r".*")],
+    canaries=[("./decoder", "replay/C12/zz_replay_c12_test.go", "TestVerifReplayC12")],
+    claim=(
+        "Totality and frame of the hand-written decoders, for every byte string: DecodeCRI, DecodePostgres, nginx error (Decode, extractCustomFields, spaceSplit), "
+        "syslog priority, RFC3164 (Decode, validateTimestamp), RFC5424 (Decode, validateTimestamp, parseStructuredData with its closures inlined and bytes.Reader modelled over its real fields, "
+        "readUntilSpaceOrNilValue), CSV Decode, atoi/checkNumber/isDigit are proved free of index, slice-bound, division and explicit panics, and to write nothing outside data[0:len(data)] "
+        "(modifies / pure clauses checked on every store, append and copy). Faithfulness is proved for CRI (Time = bytes before the first space, 6-byte stream without spaces, Log = the rest minus the newline of partial lines), "
+        "spaceSplit (strictly increasing positions of spaces) and the syslog priority range (0..191, offset 2..4)."
+    ),
+    undecided=[
+        "json and protobuf decoders: behaviour is third-party (insane-json, protocompile): decode/re-encode fidelity is not applicable to contracts on file.d code",
+        "json_max_fields_size cut (cutFieldsBySize) leaves valid JSON: needs a JSON grammar; not decided here",
+        "field-exactness of postgres / nginx / RFC3164 / RFC5424 / CSV rows (only safety and frame are proved for them)",
+    ],
+    assumptions=[
+        "lib contracts for bytes.IndexByte/IndexAny/LastIndex/TrimSuffix/Trim/Equal, bytes.Reader.Reset/ReadByte, fmt.Errorf/errors.New (non-nil)",
+        "CSV buffers from sync.Pool are owned by the call (treated as fresh)",
+        "map contents are not modelled (map updates/lookups in extractCustomFields and parseStructuredData are abstracted; they cannot panic on non-nil maps)",
+    ],
+)
